@@ -225,7 +225,11 @@ func runC02(st *ev.Stats, p PxProgram) string {
 		if value.Sign() > 0 {
 			m.flows[pxSigner.Hex.Hex()], m.flows[evmasm.FrameAddr(0).Hex()] = true, true
 		}
-		for i, f := range p.Frames {
+		// the recorded outcomes are replayed in execution order: a successful call descends into the callee at that
+		// point (every frame is called at most once), so that state set by a later op of the parent is not seen early
+		var walk func(i int)
+		walk = func(i int) {
+			f := p.Frames[i]
 			reached := false
 			for j, op := range f.Ops {
 				if op.Kind != "pre" && op.Kind != "call" && op.Kind != "send" {
@@ -261,6 +265,7 @@ func runC02(st *ev.Stats, p PxProgram) string {
 							m.flows[ctxOf[i].Hex()], m.flows[evmasm.FrameAddr(op.Child).Hex()] = true, true
 						}
 					}
+					walk(op.Child)
 				case "pre":
 					if op.CallOp == "CALL" || op.CallOp == "" {
 						addr, _ := pxCalldata(n, op.Pre, ctxOf[i])
@@ -279,6 +284,7 @@ func runC02(st *ev.Stats, p PxProgram) string {
 			}
 			_ = reached
 		}
+		walk(0)
 	}
 
 	// ---- compare ----
@@ -351,7 +357,8 @@ func runC02(st *ev.Stats, p PxProgram) string {
 		//  C  value-to-precompile-residue  a state-changing precompile call carried value.
 		keys := map[string]bool{}
 		for _, e := range m.effects {
-			mirrored := e.Account == e.Caller && ((e.Method == "staking.delegate" && e.Effect == "debit") || (e.Method == "distribution.withdraw" && e.Effect == "reward-credit"))
+			// both mirrors act on the immediate caller and only when the caller is the delegator
+			mirrored := e.Account == e.Caller && e.Caller == e.Deleg && ((e.Method == "staking.delegate" && e.Effect == "debit") || (e.Method == "distribution.withdraw" && e.Effect == "reward-credit"))
 			if !mirrored && (m.flows[e.Account.Hex()] || e.Account == e.Caller) {
 				// (the immediate caller's balance object is always loaded, and written back when anything marks it dirty)
 				keys["stale-overwrite:"+e.Method+":"+e.Effect] = true
